@@ -539,7 +539,28 @@ fn run_poll(c: &PollCase) -> Vec<&'static str> {
     let mut settled = 0u32;
     let mut ops = c.ops.clone();
     ops.push(POp::Settle);
+    // "its reported length equals the number of messages held whenever no operation is in
+    // flight": the mailbox's observer (what a deadlock report reads), after every operation
+    // - also once the channel is closed (by its last sender or by the receiver) with
+    // messages still queued
+    let observer: Box<dyn crate::tree::channel::ChannelObserver> = Box::new(unsafe { (*rx).observer() });
+    let mut closed_with_messages = false;
     for (k, op) in ops.iter().enumerate() {
+        if k > 0 {
+            let sent: usize = w.completed.iter().map(|c| c.len()).sum();
+            let delivered = w.log.lock().unwrap().len();
+            let held = sent - delivered.min(sent);
+            let reported = observer.len();
+            if reported != held {
+                panic!(
+                    "ORACLE reported-length|before op#{}: {} sends completed, {} messages delivered: {} are held, the observer reports {}",
+                    k, sent, delivered, held, reported
+                );
+            }
+            if held > 0 && (!w.rx_alive || w.senders.iter().all(|s| s.is_none())) {
+                closed_with_messages = true;
+            }
+        }
         match op {
             POp::Send(i) => w.start_send(*i as usize % n),
             POp::PollS(i) => w.poll_send(*i as usize % n),
@@ -587,6 +608,9 @@ fn run_poll(c: &PollCase) -> Vec<&'static str> {
     }
     if settled >= 2 {
         cl.push(">=2-quiescence-checks");
+    }
+    if closed_with_messages {
+        cl.push("closed-while-holding-messages");
     }
     // tear down: futures first, then what they borrow
     w.sends.clear();
